@@ -447,6 +447,14 @@ EXTRA8 = {
     "C19": "H10 / H10c readers of the bundled library data (interrupted at every point, interleaved); H8l a bundled library schema under a slow lock holder.",
     "C20": "Row labels 1..n; listed processes keep the schema prefix.",
 }
+EXTRA9 = {
+    "C01": "A faulty duration group beside delayed temporal groups, in both orders.",
+    "C06": "A frame whose row labels repeat.",
+    "C07": "F11: the same rows at onsets near zero and late in a recording (up to 1.7e9 s).",
+    "C13": "Groups built from schema objects (the same object twice, equal objects).",
+    "C15": "Negation of a term absent from the annotation inside [ ].",
+    "C19": "H11: merged requests of two bundled libraries from every partly filled cache directory.",
+}
 for _k, _v in EXTRA3.items():
     EXTRA[_k] = EXTRA.get(_k, "") + ("  " if _k in EXTRA else "") + _v
 for _k, _v in EXTRA4.items():
@@ -458,6 +466,8 @@ for _k, _v in EXTRA6.items():
 for _k, _v in EXTRA7.items():
     EXTRA[_k] = EXTRA.get(_k, "") + ("  " if _k in EXTRA else "") + _v
 for _k, _v in EXTRA8.items():
+    EXTRA[_k] = EXTRA.get(_k, "") + ("  " if _k in EXTRA else "") + _v
+for _k, _v in EXTRA9.items():
     EXTRA[_k] = EXTRA.get(_k, "") + ("  " if _k in EXTRA else "") + _v
 for _k, _v in EXTRA.items():
     CHECKS[_k]["text"] += "  Extended: " + _v
